@@ -140,6 +140,11 @@ class Contract(object):
         self.traces_.append((name, fn))
         return self
 
+    def closure(self, **kinds):
+        """Kinds of the free variables of a nested function (decorator wrapper) under contract."""
+        self.closure_kinds_ = dict(kinds)
+        return self
+
     def allow_external(self):
         """External (third-party) calls inside this function are modelled as uninterpreted
         results that may raise any Exception (each listed as an assumption)."""
